@@ -28,6 +28,13 @@ CHECKS['C09'] = dict(engine='TapeVM', tech='TLA+ spec (TapeVM) with TLC: exhaust
 CHECKS['C20'] = dict(engine='TapeVM', tech='TLA+ specs (TapeVM NopExact family; SoftFork product machine) with TLC + replay with tools.add_soft_fork installed / not installed + TLC trace validation',
                 text='NopExact is checked on all 164 codes x 256 count bytes x 4 stack depths; SoftFork.tla runs a forked and an unforked VM in lockstep over all small programs x fork predicates x codes and checks Simulation / ForkImpliesOld; every behaviour of both models is replayed in the real VM (with and without the fork installed).',
                 ref='5 C20')
+PURE_NOTE = ('Trusted: TLC/SANY + CommunityModules, CPython, the reference primitives, the concretisation of abstract scenarios into real inputs. Exhaustive inside the stated grids; beyond them seeded generation judged by TLC.')
+CHECKS['C10'] = dict(engine='Codec', tech='TLA+ spec (Codec.tla on BigInt limb arithmetic) with TLC: exhaustive inverse laws on all 1-2 byte strings, [-2^17, 2^17], 2^k+d, float32 classes + replay through the codec functions + TLC judging of recorded large cases',
+                text='The encodings are specified on byte sequences with limb arithmetic (TLC integers are 32 bit); TLC checks the inverse laws exhaustively on the stated families and prints each case with the specified encoding, which is replayed through int_to_bytes / bytes_to_int / float_to_bytes / bytes_to_float; values up to 16384 bits and float patterns of every exponent are recorded from the implementation and judged by TLC (ValidEnc / DecS / FValue).',
+                ref='5 C10', note=PURE_NOTE)
+CHECKS['C16'] = dict(engine='Timelock', tech='TLA+ spec (Timelock.tla = TapeVM instruction semantics run inside TLC vs declarative windows) with TLC on an exhaustive boundary grid + replay through the real instructions / builders with a pinned clock + TLC judging of recorded 63-bit cases',
+                text='TLC runs the documented lock instruction sequences on the VM specification and proves operational = declarative window on the exhaustive (t, now, c, threshold) x encoding grid; each grid point is replayed (shifted to a realistic clock) through run_script with the real builders, whose bytes are compared with the documented sequence; random large cases are recorded and judged by TLC in limb arithmetic.',
+                ref='5 C16', note=PURE_NOTE)
 NOT_YET = {}
 
 props = [json.loads(l) for l in open(os.path.join(ROOT, 'properties.jsonl'))]
@@ -61,6 +68,8 @@ manifest = {
         'add_only': True,
     },
     'engines': [
+        {'name': 'Codec', 'path': '/verif/spec/Codec.tla', 'serves_properties': ['C10'], 'kind_free_text': 'integer / float32 encodings on byte sequences (BigInt.tla limb arithmetic)'},
+        {'name': 'Timelock', 'path': '/verif/spec/Timelock.tla', 'serves_properties': ['C16'], 'kind_free_text': 'time windows: TapeVM run inside TLC vs declarative predicates'},
         {'name': 'TapeVM', 'path': '/verif/spec/TapeVM.tla', 'serves_properties': ['C01', 'C06', 'C07', 'C08', 'C09', 'C20'],
          'kind_free_text': 'byte-level small-step TLA+ specification of the VM; TapeVMMC.tla = exhaustive families, TapeVMTrace.tla = trace validation; checked with TLC'},
     ],
